@@ -1,6 +1,10 @@
 import Lean.Data.Json
-import Mp.Eval
-open Lean Mp
+import Mp.EvalS
+import Mp.Analysis
+import Mp.Cue
+/-! Line-protocol handlers of the model driver (core-only: links as an executable). -/
+open Lean
+namespace Mp
 
 def numKindOf (s : String) : NumKind :=
   match s with
@@ -44,6 +48,12 @@ partial def decodeVal (j : Json) : GoVal :=
     let fs := arr "v"
     .struct (fs.map fun f => (((f.getArrVal? 0).toOption.bind (·.getStr?.toOption) |>.getD "").toUTF8.toList, ((f.getArrVal? 1).toOption.bind (·.getNat?.toOption) |>.getD 1) == 1))
             (fs.map fun f => decodeVal ((f.getArrVal? 2).toOption.getD Json.null))
+  | "unexp" =>
+    let fs := (arr "v").map decodeVal
+    (match getS j "k" with
+     | "A" => .struct [([65], true), ([97], false)] fs
+     | "K" => .struct [([75], true), ([107], false)] fs
+     | _ => .struct [([104, 105, 100, 100, 101, 110], false)] fs)
   | "func" => .func
   | "chan" => .chan
   | _ => .errVal
@@ -74,19 +84,51 @@ partial def canon : GoVal → String
   | .struct ns vs => "st{" ++ ",".intercalate ((ns.zip vs).map fun p => String.fromUTF8! (ByteArray.mk p.1.1.toArray) ++ b2s p.1.2 ++ "=" ++ canon p.2) ++ "}"
   | .func => "func" | .chan => "chan" | .errVal => "errv"
 
-def handleEval (line : String) : String :=
+def handleEval (T : Tables) (line : String) : String :=
   match Json.parse line with
   | .error e => s!"BADJSON {e}"
   | .ok j =>
     let q := unhex (getS j "q")
     let d := match j.getObjVal? "d" with | .ok v => decodeVal v | _ => .nil
-    match evalTop protoTables q d with
+    match sTop T q d with
     | .ok v => "ok " ++ canon v
     | .knf => "KNF" | .err => "ERR" | .panic => "PANIC" | .unmodelled => "UNMODELLED" | .fuel => "FUEL"
 
-partial def loop (h : IO.FS.Stream) (out : IO.FS.Stream) : IO Unit := do
-  let line ← h.getLine
-  if line.isEmpty then return ()
-  out.putStrLn (handleEval line.trimRight)
-  loop h out
-def main : IO Unit := do loop (← IO.getStdin) (← IO.getStdout)
+
+partial def decTy (j : Json) : CTy :=
+  let t := (j.getObjValAs? String "t").toOption.getD ""
+  let isOpen := (j.getObjValAs? Nat "open").toOption.getD 0 == 1
+  match t with
+  | "list" => .list isOpen (match j.getObjVal? "e" with | .ok e => decTy e | _ => .prim "top")
+  | "struct" =>
+    let fs := match j.getObjVal? "f" with | .ok (.arr a) => a.toList | _ => []
+    .struct isOpen (fs.map fun f =>
+      let m := match (f.getObjValAs? String "m").toOption.getD "reg" with | "opt" => Mark.opt | "req" => .req | _ => .reg
+      .mk ((f.getObjValAs? String "n").toOption.getD "") m ((f.getObjValAs? Nat "h").toOption.getD 0 == 1) ((f.getObjValAs? Nat "q").toOption.getD 0 == 1)
+        (match f.getObjVal? "ty" with | .ok ty => decTy ty | _ => .prim "top"))
+  | "deplist" => .deplist (match j.getObjVal? "v" with | .ok (.arr a) => a.toList.filterMap (·.getStr?.toOption) | _ => [])
+  | k => .prim k
+
+def handleCue (line : String) : String :=
+  match Json.parse line with
+  | .error e => s!"BADJSON {e}"
+  | .ok j =>
+    let root := match j.getObjVal? "s" with | .ok s => decTy s | _ => .prim "top"
+    let p := match j.getObjVal? "p" with | .ok (.arr a) => a.toList.filterMap (·.getStr?.toOption) | _ => []
+    let cp := (j.getObjValAs? String "cp").toOption.getD ""
+    match validate root p cp with
+    | .acc t io => s!"ACC {t} {io}"
+    | .rej c => s!"REJ {c}"
+    | .err => "ERR"
+
+
+def handleNum (line : String) : String :=
+  let tok := line.toUTF8.toList
+  match parseFloat tok with
+  | .syntaxErr => "syntax"
+  | .rangeErr => "range"
+  | .nan => "nan"
+  | .inf n => if n then "-inf" else "+inf"
+  | .fin neg m e => let (c, x) := decOfFloat neg m e; s!"{c}e{x}"
+
+end Mp
